@@ -50,7 +50,7 @@ def _m4_job(job):
 
 
 REGIONS = ['top', 'sect1_block', 'sect1_indent', 'sect2_block', 'action_brace', 'action_line', 'action_string',
-           'action_comment', 'action_char', 'sect3', 'sect3_comment']
+           'action_comment', 'action_apos_comment', 'action_char', 'sect3', 'sect3_comment']
 
 
 def build_spec(rng):
@@ -69,38 +69,53 @@ def build_spec(rng):
             return '/* FVB%d:%s:FVE%d */' % (k, payload, k)
         if kind == 'stmt':
             return 'fv_use("FVB%d:%s:FVE%d");' % (k, payload, k)
+        if kind == 'aposcomment':       # an unmatched apostrophe before the payload, in a // comment
+            return "// don't FVB%d:%s:FVE%d" % (k, payload, k)
+        if kind == 'charconst':         # a (multi-character) character constant
+            return "(void) 'FVB%d:%s:FVE%d';" % (k, payload, k)
     bad_str = ['"', '\\', '\n', '%}', '%{', '%%', "'"]
     bad_cmt = ['*/', '\n', '%}', '%{', '%%', '/*']
     P = lambda avoid: gen_payload(rng, 7, avoid)
     L = []
     blank = lambda: [''] * rng.choice([0, 0, 1, 2])
     L += ['%top{', mark('top', P(bad_str), 'string'), mark('top', P(bad_cmt), 'comment'), '}'] + blank()
+    feats = set(f for f in ('longline', 'strcont', 'indent_then_block', 'cmtcont') if rng.random() < 0.3)
+    if 'indent_then_block' in feats:
+        L += ['    static int fv_indented_first;']
     L += ['%{', '#include <stdio.h>', 'static void fv_use(const char *s) { (void) s; }',
           mark('sect1_block', P(bad_str), 'string'), mark('sect1_block', P(bad_cmt), 'comment'), '%}'] + blank()
     L += ['    ' + mark('sect1_indent', P(bad_str), 'string')] + blank()
     L += ['%option noyywrap noinput nounput', 'DIG [0-9]', '%x SC'] + blank()
     L += ['%%'] + blank()
     L += ['%{', mark('sect2_block', P(bad_cmt), 'comment'), '%}'] + blank()
+    if 'longline' in feats:
+        L += ['%{', '/* ' + 'x' * rng.choice([4094, 4096, 5000, 9000]) + ' */', '%}']
+    if 'strcont' in feats:
+        L += ['z1\t{ fv_use("ab\\', 'cd"); }'] + blank()
+    if 'cmtcont' in feats:
+        L += ['z2\t{ /* a comment', '   over two lines */ fv_use("z2"); }'] + blank()
     L += ['a+\t{ ' + mark('action_brace', P(bad_str + ['{', '}']), 'stmt') + ' }'] + blank()
     L += ['b\t{', '\t' + mark('action_brace', P(bad_str + ['{', '}']), 'stmt'),
-          '\t' + mark('action_comment', P(bad_cmt), 'comment'), '\t}'] + blank()
+          '\t' + mark('action_comment', P(bad_cmt), 'comment'),
+          '\t' + mark('action_apos_comment', P(['\n', '%}', '%{', '%%', '\\']), 'aposcomment'),
+          '\t' + mark('action_char', P(bad_str + ['{', '}']), 'charconst'), '\t}'] + blank()
     L += ['c\t|', 'd\t' + mark('action_line', P(bad_str + ['{', '}']), 'stmt')] + blank()
     L += ['<SC>e{DIG}\t' + mark('action_string', P(bad_str + ['{', '}']), 'stmt') + " if (yytext[0] == '[' || yytext[0] == ']') {}"] + blank()
     L += ['.|\\n\t;'] + blank()
     L += ['%%'] + blank()
     L += [mark('sect3', P(bad_str), 'string'), mark('sect3_comment', P(bad_cmt), 'comment'),
           'int main(void) { while (yylex()) {} return 0; }']
-    return '\n'.join(L) + '\n', marks
+    return '\n'.join(L) + '\n', marks, sorted(feats)
 
 
 def _e2e_job(job):
     (flex, work, idx, seed) = job
     rng = random.Random(seed)
-    text, marks = build_spec(rng)
+    text, marks, feats = build_spec(rng)
     lf = os.path.join(work, 'c20_%d.l' % idx)
     cf = os.path.join(work, 'c20_%d.c' % idx)
     open(lf, 'w', encoding='latin1').write(text)
-    res = {'idx': idx, 'lex': text, 'problems': [], 'marks': len(marks), 'linedirs': 0}
+    res = {'idx': idx, 'lex': text, 'problems': [], 'marks': len(marks), 'linedirs': 0, 'feats': feats}
     noline = rng.random() < 0.3
     noline_opt = noline and rng.random() < 0.5       # the %option spelling
     if noline_opt:
@@ -146,6 +161,17 @@ def _e2e_job(job):
                 res['problems'].append('#line %d "%s" stands at output line %d: the next line is line %d' % (n, fn, i + 1, i + 2))
         elif os.path.basename(fn) == os.path.basename(lf):
             nxt = olines[i + 1] if i + 1 < len(olines) else ''
+            src_line = llines[n - 1] if 0 < n <= len(llines) else None
+            if src_line is None:
+                res['problems'].append('#line %d "%s": the input file has only %d lines' % (n, fn, len(llines)))
+            elif re.match(r'\s*case \d+:', nxt):
+                # a '|' action: nothing of the user's follows; the directive must name the rule's own line
+                if not src_line.rstrip().endswith('|'):
+                    res['problems'].append('#line %d "%s" stands for a \'|\' action, but input line %d is %r' % (n, fn, n, src_line[:60]))
+            elif nxt.strip() == 'yyecho();':
+                pass        # the default rule's action is attributed to the line of the closing %%
+            elif nxt.strip() and not nxt.startswith('#line') and len(nxt) < 4000 and nxt.strip() not in src_line:
+                res['problems'].append('#line %d "%s" precedes %r, but input line %d is %r' % (n, fn, nxt.strip()[:60], n, src_line[:60]))
             if nxt.strip() and 'FVB' in nxt:
                 src = llines[n - 1] if 0 < n <= len(llines) else ''
                 mk = re.search(r'FVB\d+:', nxt).group(0)
